@@ -657,14 +657,13 @@ def check_manager(rep, tier, seed):
     armi_ready()
     thorough = tier == "thorough"
     if thorough and not _SELFTEST:
-        res = run_tlc("XsGroups_mc", "XsGroups_mc.cfg", want_prints=False)
+        # deeper than the emission config; -coverage costs a factor > 10 on this specification, the actions taken are
+        # counted from the emitted edges below instead (same Next, shallower bound)
+        res = run_tlc("XsGroups_mc", "XsGroups_mc.cfg", want_prints=False, coverage=False)
         rep.add_tlc("exhaustive:XsGroups_mc.cfg", res)
         if res.violation:
             rep.violation("tlc:mgr:" + res.violation["name"], "TLC: %s violated in XsGroups" % res.violation["name"],
                           {"direction": "tlc", "trace": res.violation["trace"][:20000]})
-        never = [a for a in MGR_ACTIONS if res.coverage.get(a, (0, 0))[1] == 0]
-        if never:
-            raise tlc.MachineryError("vacuous: actions never taken in XsGroups_mc.cfg: %s" % never)
     cfg = "XsGroups_emit%s.cfg" % ("_thorough" if thorough else "")
     eres = run_tlc("XsGroups_mc", cfg, workers=1, coverage=False)
     rep.add_tlc("exhaustive+edges:" + cfg, eres)
@@ -714,7 +713,6 @@ def check_manager(rep, tier, seed):
     return ad, scns
 
 
-MGR_ACTIONS = ("Disable", "Enable", "MakeGroups", "CreateReps")
 TRACE_BU = [0, 1, 3, 4, 7, 10, 11, 40]
 TRACE_T1 = [300, 400, 500, 700, 800]  # never on a temperature bound (450, 600): the real temperature is a float quotient
 TRACE_W = [0, 0, 1, 2, 3]
@@ -831,7 +829,11 @@ def replay(payload):
         e = payload["edge"]
         print("scenario %s, behaviour %s" % (e["scn"], json.dumps(e["path"])))
         d = run_behaviour(ManagerAdapter({e["scn"]: payload["scenario"]}), e)
-        print("no divergence: the behaviour conforms" if not d else json.dumps(d, indent=1, default=str)[:4000])
+        if d:
+            print(json.dumps({k: v for k, v in d.items() if k != "first_difference"}, indent=1, default=str)[:4000])
+            print("divergence at step %d: %s" % (d["at"], d["first_difference"]))
+        else:
+            print("no divergence: the behaviour conforms")
         return 1 if d else 0
     if part == "labels":
         from armi.physics.neutronics import crossSectionGroupManager as xsgm
